@@ -26,22 +26,153 @@ META = {
  "technique": "TLA+ model checking (TLC) + trace validation of logged calls on the real btree",
 }
 
+import json, os
 import ixutil
 import vlib
 
 
-def classify(ev):
-    """key of a known finding for a rejected event (None = not a known pattern)"""
+MAX_NODE = 8192          # btree.maxNodeSize
+KEY_SPLIT = "node-too-large-near-max-keys"
+KEY_HDR = "builder-leaf-header-4-over"
+EXCUSED = "excused Nodes event (known finding %s): "
+
+
+def _split_shape(nd):
+    """one oversized node [size, leaf, entries, k1, k2, nlong, rest, lost, off] (driver: scen.walkNodes)
+    has the shape the count-based split of MergeAndSave leaves behind (known-findings.txt):
+    (a) its bytes sit in a few long keys / separators: at least two of >= 1000 bytes and the node
+        fits without them, or
+    (b) a leaf that kept its parent's (lost) prefix: it fits once the prefix that all its keys, or
+        all but one edge key, share is not wasted"""
+    size, leaf, _cnt, _k1, _k2, nlong, rest, lost = nd[:8]
+    return (nlong >= 2 and rest <= MAX_NODE) or (leaf == 1 and lost > 0 and size - lost <= MAX_NODE)
+
+
+def _hdr_shape(nd, split):
+    """Builder fast path (fieldsLen <= maxNodeSize - 7*splitCount skips the size computation and
+    forgets the 4 byte node header): a count-full leaf of 100 keys without a shared prefix, at
+    most 4 bytes too large"""
+    size, leaf, cnt, _k1, _k2, _nlong, _rest, lost = nd[:8]
+    return leaf == 1 and split == 100 and cnt == 100 and size <= MAX_NODE + 4 and lost == 0
+
+
+def _excused(before):
+    """{stor offset: key} of the oversized nodes excused earlier in the scenario (validate() leaves a
+    Note in place of every excused event)"""
+    offs = {}
+    for b in before:
+        if b.get("e") == "Note":
+            for key in (KEY_SPLIT, KEY_HDR):
+                pre = EXCUSED % key
+                if str(b.get("what", "")).startswith(pre):
+                    try:
+                        for o in json.loads(b["what"][len(pre):]):
+                            offs[o] = key
+                    except Exception:
+                        pass
+    return offs
+
+
+def _offsets(ev):
+    return [nd[8] for nd in ev.get("big", []) + ev.get("dbig", [])]
+
+
+def classify(ev, before=()):
+    """key of a known finding for a rejected event (None = not a known pattern).
+    before = the events of the same scenario in front of it (as dicts)"""
     if ev.get("e") == "Frac" and ev.get("ok") == 1 and ev.get("fin") == 1 and ev.get("ppm", 0) > 1000000:
         return "rangefrac-gt-1"          # F13
-    if ev.get("ok") == 0 and "too large (write)" in ev.get("msg", ""):
-        return "node-too-large-near-max-keys"   # F16: near-4096-byte keys, see report
+    if ev.get("e") == "Nodes" and ev.get("ok") == 1 and ev.get("maxfan", 0) <= ev.get("split", 0):
+        big = ev.get("big", [])
+        if not big or len(big) != ev.get("nover"):
+            return None
+        # EVERY node above the limit must either be a node that was excused when it was first seen
+        # (same stor offset: the version still contains it), or have been produced by the registered
+        # operation in the registered shape; nothing else excuses a node above the limit
+        old, keys = _excused(before), []
+        for nd in big:
+            if nd[8] in old:
+                keys.append(old[nd[8]])
+            elif ev.get("op") == "merge" and _split_shape(nd):
+                keys.insert(0, KEY_SPLIT)
+            elif ev.get("op") == "build" and _hdr_shape(nd, ev.get("split")):
+                keys.insert(0, KEY_HDR)
+            else:
+                return None
+        return keys[0]
+    if ev.get("e") == "Merge" and ev.get("ok") == 0 and "too large (write)" in ev.get("msg", ""):
+        # write() refuses to path-copy a node that was stored oversized in a registered shape:
+        # either by a split during the same call - the driver then applied the batch again entry by
+        # entry and its node walk saw the node after entry dstep (scen.diagnose) - or by an earlier
+        # operation of THIS scenario (observed by the node walk then, excused above). A 'too large'
+        # panic with no such node is not excused.
+        dbig = ev.get("dbig", [])
+        if ev.get("dstep", 0) >= 1 and dbig and len(dbig) == ev.get("dnover") and all(_split_shape(nd) for nd in dbig):
+            return KEY_SPLIT
+        old = _excused(before)
+        if old:
+            return sorted(old.values())[-1]
     return None
+
+
+def validate(ctx, trace, timeout=900, max_known=80):
+    """like ixutil.validate, but a known finding does not end the validation of its scenario: the
+    excused line is replaced by a Note (which the trace spec skips) together with the later Nodes
+    events of the scenario that show the same registered shape (every later version of the tree
+    still contains the node), and the scenario is validated again from its start. Lookups,
+    iteration, Check() and later merges of a tree that contains an excused node are still checked."""
+    cur, rounds = trace, 0
+    while True:
+        res = ctx.tlc_trace("TraceOrdMap.tla", "TraceOrdMap.cfg", cur, timeout=timeout, extra_env=ixutil.TRACE_ENV)
+        if res["accepted"]:
+            return True
+        line = res.get("line", 0)
+        lines = open(cur).read().splitlines()
+        seg = next(((s, e) for s, e in ixutil._segments(lines) if s < line <= e), None)
+        ev = ixutil.event_at(cur, line)
+        before = []
+        if seg:
+            for l in lines[seg[0]:line - 1]:
+                try:
+                    before.append(json.loads(l))
+                except Exception:
+                    pass
+        key = classify(ev, before)
+        what = "%s; event %s" % (res.get("reason", ""), json.dumps(ev)[:300])
+        if ctx.report_rejection(cur, res, key=key, what=what):
+            return False            # VIOLATION printed
+        rounds += 1
+        if rounds > max_known or not seg:
+            raise vlib.Infra("more than %d known-finding rejections (or no scenario for line %d); giving up" % (max_known, line))
+        s, e = seg
+
+        def note(ev1, i):
+            return {"e": "Note", "what": (EXCUSED % key) + json.dumps(_offsets(ev1)), "n": i + 1}
+        out = lines[s:e]
+        before.append(note(ev, line - 1))
+        out[line - 1 - s] = json.dumps(before[-1], separators=(",", ":"))
+        if ev.get("e") == "Nodes":
+            for i in range(line, e):
+                try:
+                    ev1 = json.loads(lines[i])
+                except Exception:
+                    continue
+                if ev1.get("e") == "Nodes" and ev1.get("nover", 0) > 0 and classify(ev1, before) == key:
+                    ev1 = note(ev1, i)
+                    out[i - s] = json.dumps(ev1, separators=(",", ":"))
+                before.append(ev1)
+        nseg = sum(1 for s2, e2 in ixutil._segments(lines) if e2 <= s)
+        ctx.cov["events_validated"] += s
+        ctx.cov["traces_validated_against_impl"] += nseg
+        ctx.cov["known_finding_events_excused"] = ctx.cov.get("known_finding_events_excused", 0) + 1
+        cur = os.path.join(ctx.work, "%s.rest%d.ndjson" % (os.path.basename(trace), rounds))
+        with open(cur, "w") as f:
+            f.write("\n".join(out + lines[e:]) + "\n")
 
 
 def run(ctx):
     if ctx.replay:
-        ixutil.validate(ctx, "TraceOrdMap.tla", "TraceOrdMap.cfg", ctx.replay, classify)
+        validate(ctx, ctx.replay)
         return
     # 1. design level
     r = ctx.tlc_mc("OrdMap.tla", "OrdMap_quick.cfg", timeout=900, coverage=True)
@@ -70,25 +201,32 @@ def run(ctx):
     # 2. conformance
     drv = ctx.go_build("btree")
     trace = ctx.work + "/btree.ndjson"
-    #        nsmall nmedium nbig nlong nenum
-    args = [60, 25, 6, 20, 16] if ctx.thorough() else [12, 4, 1, 3, 1]
+    #        nsmall nmedium nbig nlong nenum nlbuild
+    args = [60, 25, 6, 20, 16, 72] if ctx.thorough() else [12, 4, 1, 3, 1, 12]
     rc, out, summ = ctx.driver(drv, [trace] + args, timeout=900)
     if rc != 0:
         raise vlib.Infra("btree driver rc=%d: %s" % (rc, out[-2000:]))
     ctx.sample_trace_lines(trace, 4)
-    for k in ("merges", "changes", "states", "lookups", "iterops", "fracs", "scenarios", "panics", "fracs_out_of_range"):
+    for k in ("merges", "changes", "states", "lookups", "iterops", "fracs", "scenarios", "panics", "fracs_out_of_range",
+              "nodewalks", "nodes_seen", "max_node_size", "trees_with_oversized_node_build", "trees_with_oversized_node_merge"):
         ctx.cov["real_" + k] = summ.get(k, 0)
-    ok = ixutil.validate(ctx, "TraceOrdMap.tla", "TraceOrdMap.cfg", trace, classify, timeout=1800)
+    ok = validate(ctx, trace, timeout=1800)
     # 3. anti-vacuity: one corrupted field must be rejected at its line
     if ok and not ctx.violations:
         ixutil.corrupt_and_expect_rejection(
             ctx, "TraceOrdMap.tla", "TraceOrdMap.cfg", trace,
             pick=lambda ev: ev.get("e") == "State" and 2 <= len(ev.get("fwdo", [])) and len(ev.get("look", [])) <= 40,
             mutate=lambda ev: ev["fwdo"].__setitem__(1, ev["fwdo"][1] + 1))
+        # ... and a node walk that reports one node of 8193 bytes (nothing else changed)
+        ixutil.corrupt_and_expect_rejection(
+            ctx, "TraceOrdMap.tla", "TraceOrdMap.cfg", trace,
+            pick=lambda ev: ev.get("e") == "Nodes" and ev.get("nover") == 0 and ev.get("n", 0) >= 2 and ev.get("nk", 0) <= 200,
+            mutate=lambda ev: ev.__setitem__("maxsz", MAX_NODE + 1))
     ctx.assumptions += [
         "rank -> key table strictly monotone (asserted by the driver at scenario start); offsets logged as ids of a bijective id -> 40 bit offset table",
         "batches are generated valid (add only absent keys, update/delete only present keys); an invalid batch would stop validation as a harness error, not as a violation",
         "RangeFrac is an estimate: only 0 <= frac <= 1 and finiteness are required",
+        "node sizes are read by the driver from the stor bytes with its own reader of the documented node layout (count, 7 byte entries, 2 byte end offset; root offset and levels from btree.Write); the number of keys it finds in the leaves must equal the model's count",
         "tree height is kept below the iterator's 8 levels (scenario ends at 7 levels; only reachable with split factors 2-3)",
         "TLC exhaustive bounds: see tlc_runs",
     ]
